@@ -1,6 +1,6 @@
 (* Props/C12.v -- property C12: UAS INVITE: one final response under any CANCEL/BYE/accept race; 2xx until ACK *)
 From Coq Require Import List NArith Bool.
-From EZK Require Import Gen.Tables Model.C04 Proofs.C04 Model.C12o Proofs.C12o Model.Tsx Model.C12 Proofs.C12.
+From EZK Require Import Model.Forms8 Proofs.Forms8 Gen.Tables Model.C04 Proofs.C04 Model.C12o Proofs.C12o Model.Tsx Model.C12 Proofs.C12.
 Import ListNotations.
 Open Scope N_scope.
 
@@ -95,3 +95,16 @@ Proof. exact ack_during_send_matched. Qed.
 
 Theorem C12_late_rendezvous_refuted : ack_matched false [AckArrives; SendReturns; RegisterRendezvous] = false.
 Proof. exact ack_late_registration_dropped. Qed.
+
+(* "until an ACK with the INVITE's CSeq arrives": an ACK with another number leaves the rendezvous in place, so after any number of
+   stray ACKs the right one is still matched; an arm that takes the entry and does not put it back loses it at the first stray ACK *)
+Theorem C12_ack_put_back_guard : ack_mismatch_puts_back = true.
+Proof. reflexivity. Qed.
+
+Theorem C12_stray_acks_keep_rendezvous : ack_mismatch_puts_back = true ->
+  forall a strays, Forall (fun c => c <> a) strays ->
+  acks (Some a) (strays ++ [a]) = (None, map (fun _ => false) strays ++ [true]).
+Proof. exact acks_here. Qed.
+
+Theorem C12_stray_ack_takes_refuted : forall a c, c <> a -> acks_form false (Some a) [c; a] = (None, [false; false]).
+Proof. exact stray_ack_loses_slot. Qed.
